@@ -74,6 +74,7 @@ func verifClosure(name string, env ...interface{}) interface{}
 			src += `func verifRequestBody(r *http.Request) []byte
 func verifSetMultipart(req *http.Request, fieldNames, fieldValues, fileKeys, fileNames, fileContents []string)
 func verifRequestMultipart(req *http.Request) map[string]interface{}
+func verifSpillFiles(req *http.Request)
 
 // vNativeTransport routes a real http.Client to the harness transport in native runs (the symbolic
 // executor intercepts (*http.Client).Do before any transport is consulted)
@@ -101,11 +102,20 @@ type loaded struct {
 	tLoad time.Duration
 }
 
+// repoRoot is the tree under test: /repo, unless VERIF_REPO names a scratch worktree of it (used when
+// seeded changes are tried without touching /repo; registered checks never set it)
+var repoRoot = func() string {
+	if r := os.Getenv("VERIF_REPO"); r != "" {
+		return strings.TrimSuffix(r, "/")
+	}
+	return "/repo"
+}()
+
 func loadProgram(overlay map[string][]byte) (*loaded, error) {
 	t0 := time.Now()
 	cfg := &packages.Config{
 		Mode:       packages.LoadAllSyntax,
-		Dir:        "/repo",
+		Dir:        repoRoot,
 		Overlay:    overlay,
 		BuildFlags: []string{"-tags=verif"},
 		Env:        append(os.Environ(), "GOFLAGS=-mod=mod", "GOPROXY=off", "GOSUMDB=off", "GOTOOLCHAIN=local"),
@@ -342,13 +352,13 @@ func harnessOverlay(ks []*Kernel) map[string][]byte {
 		if dir == "." {
 			dir = ""
 		}
-		ov[filepath.Join("/repo", dir, "zz_verif_prims.go")] = primsSource(pkgName(k.Pkg), false)
+		ov[filepath.Join(repoRoot, dir, "zz_verif_prims.go")] = primsSource(pkgName(k.Pkg), false)
 		for _, f := range k.Files {
 			src, err := os.ReadFile(filepath.Join(verifRoot, "harness", f))
 			if err != nil {
 				fatalf("harness file: %v", err)
 			}
-			ov[filepath.Join("/repo", dir, "zz_verif_"+strings.ReplaceAll(filepath.Base(f), "/", "_"))] = src
+			ov[filepath.Join(repoRoot, dir, "zz_verif_"+strings.ReplaceAll(filepath.Base(f), "/", "_"))] = src
 		}
 	}
 	return ov
